@@ -107,4 +107,27 @@ Section SI.
     induction blocks as [|b r IH]; cbn [concat map]; [reflexivity|].
     rewrite md5_input_app, IH. reflexivity.
   Qed.
+  (* C03: the fields of the encoded stream's STREAMINFO *)
+  Theorem streaminfo_true cfg rate channels bps bs samples s :
+    encode_stream ent qlpc md5 cfg rate channels bps bs samples = Ok s ->
+    si_rate (s_info s) = rate /\ si_channels (s_info s) = channels /\ si_bps (s_info s) = bps /\
+    si_total (s_info s) = N.of_nat (length samples) / channels /\
+    si_md5 (s_info s) = md5 (md5_input bps samples).
+  Proof.
+    intros E. destruct (streaminfo_of_encoded _ _ _ _ _ _ _ E) as (H1 & H2 & H3 & H4 & H5 & _).
+    repeat split; assumption.
+  Qed.
+  (* C04: the block-size and frame-size bounds of the encoded stream's STREAMINFO *)
+  Theorem bounds_exact cfg rate channels bps bs samples s :
+    encode_stream ent qlpc md5 cfg rate channels bps bs samples = Ok s ->
+    si_max_block (s_info s) = bs /\ si_min_block (s_info s) = bs /\
+    (s_frames s <> [] ->
+       In (si_min_frame (s_info s)) (map frame_size_field (s_frames s)) /\
+       In (si_max_frame (s_info s)) (map frame_size_field (s_frames s)) /\
+       (forall f, In f (s_frames s) ->
+          si_min_frame (s_info s) <= frame_size_field f /\ frame_size_field f <= si_max_frame (s_info s))).
+  Proof.
+    intros E. destruct (streaminfo_of_encoded _ _ _ _ _ _ _ E) as (_ & _ & _ & _ & _ & H6 & H7 & H8).
+    repeat split; try assumption; apply H8; assumption.
+  Qed.
 End SI.
